@@ -70,7 +70,9 @@ def step (_ : Unit) (line : String) : Unit × String :=
     let ids := mkIds ms (natsOf s)
     let pm := (groups.splitOn ";").map parseGroup
     let names := (List.range 10).filter fun k => ms.contains k
-    let out := renderByName names ids pm
+    -- the stable sort by module name of the set sequence (report_is_concat_of_module_reports shows
+    -- it equals `renderByName names ids pm`); `names` only fixes the key range
+    let out := if names.isEmpty then [] else sSort (fun (a b : Err) => decide (a.modl < b.modl)) (render ids pm)
     ((), if out.isEmpty then "-" else ",".intercalate (out.map fun e =>
       let tag := if e.rank == 3 then
           match e.atoms with
@@ -134,7 +136,11 @@ def step (_ : Unit) (line : String) : Unit × String :=
     let direct := showW (SamVerif.TempCounter.tempName st sc)
     let viaSeq := showW fun w c =>
       (SamVerif.TempCounter.tempName st seq w c).map (SamVerif.TempCounter.renameTo st seq sc)
-    ((), direct ++ " | " ++ viaSeq)
+    -- and from the small-step machine with the atomic read-modify-write
+    let cs := SamVerif.TempCounter.crun st (sc.map .rmw)
+    let viaSteps := ";".intercalate (workers.map fun w =>
+      s!"{w}:" ++ ",".intercalate ((cs.issued.filter (·.1 == w)).map fun p => toString p.2))
+    ((), direct ++ " | " ++ viaSeq ++ " | " ++ viaSteps)
   | _ => ((), "bad-op")
 
 def run : IO Unit := runLoop () step
